@@ -197,6 +197,12 @@ def judge(ctx, obs, M=None, pres=None):
     b0 = D.bounds()
     L0 = float(np.linalg.norm(b0[1] - b0[0])) + float(np.abs(b0).max())
     eps0 = 1e-8 * L0  # positional tolerance in generator coordinates
+    if ctx.route == "svg" and D.has_arc:
+        # SVG stores an arc as end points + radius + flags with a fixed number of decimals: the
+        # centre is recovered by intersecting two circles, which for half turns is conditioned
+        # like sqrt(r * 10^-digits) - the curve read back legitimately sits ~1e-6..1e-5 of the
+        # drawing size away from the exact ring (what the format stores, not what the code does)
+        eps0 = 2e-6 * L0
     shells = D.shells()
     exp_area = D.area() * s * s
     exp_len = D.length() * s
